@@ -135,3 +135,23 @@ Definition facts_ok (f : facts) : bool :=
   match f_mutable_fields f, f_mutable_vars f with [], [] => true | _, _ => false end &&
   list_eqb (f_reject_conditions f) model_reject_conditions &&
   String.eqb (f_denom_format f) model_denom_format.
+
+(** ---------------------------------------------------------------- contract message handler (app/wasmext)
+    [wasm_dispatch_events] (Gen/C15Facts.v, harness/gen/c15/wasm.go) is what the handler does to ONE dispatched
+    message before it routes it.  Model.v's [wasm_admits] with [wasm_signer = true] says: every signer of the
+    dispatched message ITSELF — a token-factory message or a wrapper such as authz MsgExec alike — is compared
+    with the contract, unconditionally.  That is read off the events as: a "signers-are-contract" event occurs,
+    and everything in front of it can only refuse (ValidateBasic, guards, guard calls, local bindings) — no loop
+    over something else, no conditional that skips, no early success, no routing. *)
+Definition only_refuses (e : string) : bool :=
+  String.eqb e "validate-basic" || String.prefix "guard:" e || String.prefix "guard-call:" e || String.prefix "let:" e.
+
+Fixpoint wasm_signer_checked (evs : list string) : bool :=
+  match evs with
+  | [] => false
+  | e :: r => if String.eqb e "signers-are-contract" then true
+              else if only_refuses e then wasm_signer_checked r else false
+  end.
+
+(** … and the handler hands the message to the router at all *)
+Definition wasm_routes (evs : list string) : bool := mem_s "route" evs.
